@@ -36,7 +36,7 @@ add("C12", "E1", "property-based testing: rewrite metamorphic relation (shortcut
     "Exploration: every shortcut occurrence (type, member, variant, nested parent, ghost/ghosts) of a generated input is rewritten in place into the tabulated basic instructions; verdict and multiset of impl items must be equal. A second part applies the same rewrite at token level to the instruction-selection lattice of C16 / C17, about half of whose inputs are rejected, so that accepted-or-rejected-alike is exercised on misuse (wrong ghost entry forms, missing hints, inapplicable member instructions) and not only on valid inputs.",
     TB + "; the shortcut table is transcribed from the README", "DESIGN.md 3/C12")
 add("C13", "E1", "property-based testing: rewrite metamorphic relation (three spellings of one AST)",
-    "Exploration: the same generated AST rendered all-bare, each-wrapped and randomly grouped must give the same accept/reject decision and byte-identical output.",
+    "Exploration: the same generated AST rendered all-bare, each-wrapped and randomly grouped must give the same accept/reject decision and byte-identical output. A second part re-spells, at token level, the inputs of the instruction-selection lattice of C16 / C17 (about half rejected) the same three ways.",
     TB, "DESIGN.md 3/C13")
 add("C14", "E1", "property-based testing: reference write-out transformation + equality of two expansions",
     "Exploration: generated member sequences / trait instruction lists with random non-conflicting repeat, skip_repeat, stop_repeat placements; a reference write_out implementing the property's two sentences on the AST must expand to byte-identical output.",
